@@ -149,6 +149,10 @@ def run_case(case, ctx):
     qd = [0, 0] if mode == 'zero' else sym.FAITHFUL_QD
     refd = sym.poly_dense(ref, sym.FAITHFUL, L, 2)
     check_mpo_from_graph(ctx, graph, qd, sym.FAITHFUL, L, refd)
+    if mode == 'zero' and L <= 2 and len(chains) <= 2:
+        # a second, generic (non-faithful) operator map of local dimension 3 - "all local operator maps"
+        from props.c17 import GEN3
+        check_mpo_from_graph(ctx, graph, [0, 0, 0], GEN3, L, sym.poly_dense(ref, GEN3, L, 3), prefix='generic_map:')
     # bound on bond dimensions is C20's business
 
 
